@@ -190,13 +190,15 @@ type RunOpts struct {
 	ReturnErr      bool  // ReturnErrOnFailedRuleEvaluation
 	Ctx            context.Context
 	ExtraListeners int
-	Removed        map[string]bool    // rule names removed (model side)
-	NoSnapshots    bool               // skip Pre snapshots / post-state comparison
-	OnEvent        func(ev string)    // observer of the unified event log
-	KB             *ast.KnowledgeBase // reuse this instance instead of creating one
-	CloneOrd       int                // order in which NewKnowledgeBaseInstance clones the rules (see Built.InstanceOrd)
-	DefaultChoice  int                // order choice used beyond Choices (clamped to the number of permutations)
-	CountReads     string             // when set ("F.P->V"): leaf reads of that accessor are logged as events "read:<key>"
+	Removed        map[string]bool                    // rule names removed (model side)
+	NoSnapshots    bool                               // skip Pre snapshots / post-state comparison
+	OnEvent        func(ev string)                    // observer of the unified event log
+	KB             *ast.KnowledgeBase                 // reuse this instance instead of creating one
+	CloneOrd       int                                // order in which NewKnowledgeBaseInstance clones the rules (see Built.InstanceOrd)
+	DefaultChoice  int                                // order choice used beyond Choices (clamped to the number of permutations)
+	CountReads     string                             // when set ("F.P->V"): leaf reads of that accessor are logged as events "read:<key>"
+	Shared         *SharedEngine                      // run on this shared engine value (its MaxCycle / flag apply) instead of a private one
+	OnProbe        func(kind string, id int64, n int) // called at every probe invocation of the world's facts (after the event is logged)
 }
 
 type monitor struct {
@@ -454,15 +456,27 @@ func RunOn(prog *Program, kb *ast.KnowledgeBase, w *ref.World, opts RunOpts, tr 
 			}
 		}
 	}
-	eng := &engine.GruleEngine{MaxCycle: opts.MaxCycle, ReturnErrOnFailedRuleEvaluation: opts.ReturnErr}
-	eng.Listeners = append(eng.Listeners, m)
-	tr.ExtraLogs = make([][]string, opts.ExtraListeners)
-	for i := 0; i < opts.ExtraListeners; i++ {
-		eng.Listeners = append(eng.Listeners, extraListener{log: &tr.ExtraLogs[i]})
+	var eng *engine.GruleEngine
+	if opts.Shared != nil {
+		eng = opts.Shared.Eng
+		tr.MaxCycle = eng.MaxCycle
+		opts.MaxCycle = eng.MaxCycle
+	} else {
+		eng = &engine.GruleEngine{MaxCycle: opts.MaxCycle, ReturnErrOnFailedRuleEvaluation: opts.ReturnErr}
+		eng.Listeners = append(eng.Listeners, m)
+		tr.ExtraLogs = make([][]string, opts.ExtraListeners)
+		for i := 0; i < opts.ExtraListeners; i++ {
+			eng.Listeners = append(eng.Listeners, extraListener{log: &tr.ExtraLogs[i]})
+		}
 	}
 	for _, f := range w.Objs {
 		f := f
-		f.H().OnProbe = func(kind string, id int64, n int) { m.event(fmt.Sprintf("%s:%d", kind, id)) }
+		f.H().OnProbe = func(kind string, id int64, n int) {
+			m.event(fmt.Sprintf("%s:%d", kind, id))
+			if opts.OnProbe != nil {
+				opts.OnProbe(kind, id, n)
+			}
+		}
 	}
 	if pc, ok := opts.Ctx.(*PollCtx); ok {
 		pc.OnFlip = func() { m.event("FLIP") }
@@ -473,6 +487,11 @@ func RunOn(prog *Program, kb *ast.KnowledgeBase, w *ref.World, opts RunOpts, tr 
 		ctx, cancel = context.WithCancel(context.Background())
 		m.cancel = cancel
 		defer cancel()
+	}
+	if opts.Shared != nil {
+		var leave func()
+		ctx, leave = opts.Shared.Enter(ctx, m)
+		defer leave()
 	}
 	hook := 0
 	setChooser(kb.RuleEntries, func(keys []string) []int {
